@@ -443,6 +443,14 @@ func (d *Data) storeBlocks(ctx *datastore.VersionedCtx, r io.ReadCloser, scale u
 	if err != nil {
 		return fmt.Errorf("ReceiveBlocks couldn't get mapping for data %q, version %d: %v", d.DataName(), ctx.VersionID(), err)
 	}
+	if d.Compression().Format() != dvid.Gzip {
+		return fmt.Errorf("labelmap %q cannot accept GZIP /blocks POST since it internally uses %s", d.DataName(), d.Compression().Format())
+	}
+	var extentsChanged bool
+	extents, err := d.GetExtents(ctx)
+	if err != nil {
+		return err
+	}
 	var blockCh chan blockChange
 	var putWG, processWG sync.WaitGroup
 	if indexing {
@@ -483,15 +491,11 @@ func (d *Data) storeBlocks(ctx *datastore.VersionedCtx, r io.ReadCloser, scale u
 		putWG.Done()
 	}
 
-	if d.Compression().Format() != dvid.Gzip {
-		return fmt.Errorf("labelmap %q cannot accept GZIP /blocks POST since it internally uses %s", d.DataName(), d.Compression().Format())
-	}
-	var extentsChanged bool
-	extents, err := d.GetExtents(ctx)
-	if err != nil {
-		return err
-	}
+	// A stream that turns out to be bad after some blocks have been stored is refused, but the
+	// bookkeeping for the blocks stored so far (indices, extents, buffered puts) is still completed
+	// and the aggregating goroutine is released.
 	var numBlocks int
+	var streamErr error
 	blockSize := d.BlockSize().(dvid.Point3d)
 	for {
 		block, compressed, bx, by, bz, err := readStreamedBlock(r, scale)
@@ -499,32 +503,37 @@ func (d *Data) storeBlocks(ctx *datastore.VersionedCtx, r io.ReadCloser, scale u
 			break
 		}
 		if err != nil {
-			return err
+			streamErr = err
+			break
 		}
 		if block.Size != blockSize {
-			return fmt.Errorf("block (%d,%d,%d) has size %s, not the block size %s of labelmap %q", bx, by, bz, block.Size, blockSize, d.DataName())
+			streamErr = fmt.Errorf("block (%d,%d,%d) has size %s, not the block size %s of labelmap %q", bx, by, bz, block.Size, blockSize, d.DataName())
+			break
 		}
 		bcoord := dvid.ChunkPoint3d{bx, by, bz}.ToIZYXString()
 		tk := NewBlockTKeyByCoord(scale, bcoord)
+		serialization, err := dvid.SerializePrecompressedData(compressed, d.Compression(), d.Checksum())
+		if err != nil {
+			streamErr = fmt.Errorf("can't serialize received block %s data: %v", bcoord, err)
+			break
+		}
 		if scale == 0 {
 			if mod := d.blockChangesExtents(&extents, bx, by, bz); mod {
 				extentsChanged = true
 			}
 			d.updateBlockMaxLabel(ctx.VersionID(), block) // before the block is stored (see putChunk)
 		}
-		serialization, err := dvid.SerializePrecompressedData(compressed, d.Compression(), d.Checksum())
-		if err != nil {
-			return fmt.Errorf("can't serialize received block %s data: %v", bcoord, err)
-		}
-		putWG.Add(1)
 		if putbuffer != nil {
+			putWG.Add(1)
 			ready := make(chan error, 1)
 			go callback(bcoord, block, ready)
 			putbuffer.PutCallback(ctx, tk, serialization, ready)
 		} else {
 			if err := store.Put(ctx, tk, serialization); err != nil {
-				return fmt.Errorf("Unable to PUT voxel data for block %s: %v", bcoord, err)
+				streamErr = fmt.Errorf("Unable to PUT voxel data for block %s: %v", bcoord, err)
+				break
 			}
+			putWG.Add(1)
 			go callback(bcoord, block, nil)
 		}
 		numBlocks++
@@ -545,6 +554,9 @@ func (d *Data) storeBlocks(ctx *datastore.VersionedCtx, r io.ReadCloser, scale u
 	// if a bufferable op, flush
 	if putbuffer != nil {
 		putbuffer.Flush()
+	}
+	if streamErr != nil {
+		return streamErr
 	}
 	if downscale {
 		if err := downresMut.Execute(); err != nil {
